@@ -18,6 +18,9 @@ pub fn subst_rule() {
     assert!(same::<DeserType<'static, GE<Vec<u32>>>, GE<&'static [u32]>>(), "[C05/subst.param.enum] parameters of enum variant fields are substituted");
     // a parameter that is merely mentioned keeps its type (field fully deserialized)
     assert!(same::<DeserType<'static, GM<u16>>, GM<u16>>(), "[C05/subst.mention] a field whose type merely mentions a parameter keeps its type");
+    // ... also when the definition comes out of a macro (the field type is a `ty` fragment)
+    assert!(same::<DeserType<'static, GMac<Vec<u16>>>, GMac<&'static [u16]>>(), "[C05/subst.param.macro] a parameter-typed field is substituted also in macro-generated definitions");
+    assert!(same::<DeserType<'static, GMacE<Vec<u16>>>, GMacE<&'static [u16]>>(), "[C05/subst.param.macro] a parameter-typed field is substituted also in macro-generated definitions");
     // non-generic deep types are their own eps-copy type
     assert!(same::<DeserType<'static, D1>, D1>(), "[C05/subst.none] a deep type without parameters is its own eps-copy type");
     assert!(same::<DeserType<'static, E1>, E1>(), "[C05/subst.none] a deep type without parameters is its own eps-copy type");
